@@ -355,7 +355,22 @@ func (g *CallGraph) addEdges(fn *ssa.Function) {
 					mk(t, "", "static")
 				}
 				if open || len(ts) == 0 {
-					mk(nil, "callback", "callback")
+					// A function type that mentions an unexported type of the module
+					// cannot be implemented by user code: resolve by signature.
+					if sig, ok := com.Value.Type().Underlying().(*types.Signature); ok && mentionsUnexported(sig) {
+						n := 0
+						for _, cand := range g.c.Funcs {
+							if sigMatches(cand, sig) {
+								mk(cand, "", "static")
+								n++
+							}
+						}
+						if n == 0 {
+							mk(nil, "internal-func-value", "ext")
+						}
+					} else {
+						mk(nil, "callback", "callback")
+					}
 				}
 			}
 		}
@@ -421,4 +436,49 @@ func sortedFns(c *Ctx, m map[*ssa.Function]*CGEdge) []*ssa.Function {
 	}
 	sort.Slice(out, func(i, j int) bool { return c.fnName(out[i]) < c.fnName(out[j]) })
 	return out
+}
+
+// mentionsUnexported: a parameter or result type of sig is (a pointer to) an
+// unexported named type of the module.
+func mentionsUnexported(sig *types.Signature) bool {
+	chk := func(t *types.Tuple) bool {
+		for i := 0; i < t.Len(); i++ {
+			n := namedOf(t.At(i).Type())
+			if n != nil && n.Obj().Pkg() != nil && strings.HasPrefix(n.Obj().Pkg().Path(), modPath) && !n.Obj().Exported() {
+				return true
+			}
+		}
+		return false
+	}
+	return chk(sig.Params()) || chk(sig.Results())
+}
+
+// sigMatches: fn (a plain function, or a method used as method expression with
+// the receiver as first parameter) has the parameter/result types of sig.
+func sigMatches(fn *ssa.Function, sig *types.Signature) bool {
+	if fn.Parent() != nil {
+		return false
+	}
+	fs := fn.Signature
+	var params []types.Type
+	if fs.Recv() != nil {
+		params = append(params, fs.Recv().Type())
+	}
+	for i := 0; i < fs.Params().Len(); i++ {
+		params = append(params, fs.Params().At(i).Type())
+	}
+	if len(params) != sig.Params().Len() || fs.Results().Len() != sig.Results().Len() {
+		return false
+	}
+	for i, p := range params {
+		if !types.Identical(p, sig.Params().At(i).Type()) {
+			return false
+		}
+	}
+	for i := 0; i < fs.Results().Len(); i++ {
+		if !types.Identical(fs.Results().At(i).Type(), sig.Results().At(i).Type()) {
+			return false
+		}
+	}
+	return true
 }
